@@ -144,7 +144,7 @@ Definition responses_full_statement : Prop :=
     spec_step e (abs c) line = (abs (fst (process_line e c line)), map kind_of (snd (process_line e c line))).
 
 Definition env1 (asserts : bool) : env :=
-  mkEnv (mkCreds (Some 0) None None) None [] false asserts 0 (fun _ => None) [] true (fun _ => None) (fun _ => []) (fun _ => None).
+  mkEnv (mkCreds (Some 0) None None) None [] false asserts 0 (fun _ => None) [] true (fun _ => None) (fun _ _ => []) (fun _ => None).
 
 (* ... is refuted twice: "AUTH EXTERNAL 3" (dangling hex digit, accepted) and, with assertions, "AUTH \n" (abort) *)
 Theorem responses_refuted_odd_hex : ~ responses_full_statement.
